@@ -10,6 +10,7 @@ var Markers = []string{"FLAG", "alpha", "beta", "GET /", "passwd", "xyzzy"}
 
 type GenConfig struct {
 	MaxConvs   int
+	MinConvs   int
 	MaxFiles   int
 	MaxMsgs    int
 	MaxPayload int  // per run
@@ -34,6 +35,9 @@ func DefaultGen() GenConfig {
 func Gen(r *rand.Rand, cfg GenConfig) *Spec {
 	spec := &Spec{BaseUnix: 1_600_000_000 + int64(r.IntN(1000))*3600}
 	n := 1 + r.IntN(cfg.MaxConvs)
+	if n < cfg.MinConvs {
+		n = cfg.MinConvs
+	}
 	budget := cfg.MaxPayload
 	horizon := int64(1+r.IntN(60)) * 1_000_000 // conversations start within this window
 	usedPorts := map[uint16]bool{}
